@@ -2,7 +2,10 @@
 
 use super::XmlWriter;
 use quick_xml::escape;
+use quick_xml::events::attributes::Attribute;
 use quick_xml::events::{BytesStart, BytesText, Event};
+use quick_xml::name::QName;
+use std::borrow::Cow;
 use std::io;
 
 /// Creates text event from the given content.
@@ -15,6 +18,26 @@ pub(super) fn escaped_text(content: &str) -> BytesText<'_> {
         BytesText::from_escaped(escaped.replace('\r', "&#13;"))
     } else {
         BytesText::from_escaped(escaped)
+    }
+}
+
+/// Creates attribute from the given key and unescaped value.
+///
+/// Unlike `Attribute::from((&str, &str))`, tab, line feed, and carriage return are also
+/// escaped since they would otherwise be normalized to space by XML parser.
+pub(super) fn escaped_attribute<'a>(key: &'a str, value: &str) -> Attribute<'a> {
+    let escaped = escape::escape(value);
+    let escaped = if escaped.contains(['\t', '\n', '\r']) {
+        escaped
+            .replace('\t', "&#9;")
+            .replace('\n', "&#10;")
+            .replace('\r', "&#13;")
+    } else {
+        escaped.into_owned()
+    };
+    Attribute {
+        key: QName(key.as_bytes()),
+        value: Cow::Owned(escaped.into_bytes()),
     }
 }
 
